@@ -191,11 +191,13 @@ func (v *Vue) loadCachedWithFrontMatter(filename string) (map[string]any, []*htm
 	// Cache miss or file changed - reload
 	frontMatter, templateBytes, err := v.loader.loadFragment(filename)
 	if err != nil {
+		v.forgetTemplate(filename)
 		return nil, nil, err
 	}
 
 	dom, err := parser.ParseTemplateBytes(templateBytes)
 	if err != nil {
+		v.forgetTemplate(filename)
 		return nil, nil, err
 	}
 
@@ -208,6 +210,15 @@ func (v *Vue) loadCachedWithFrontMatter(filename string) (map[string]any, []*htm
 	v.templateMu.Unlock()
 
 	return frontMatter, dom, nil
+}
+
+// forgetTemplate drops what is cached for a file that could not be loaded: the entry
+// describes a revision that is gone, and a file that comes back under the old
+// modification time must be read again instead of being answered from it.
+func (v *Vue) forgetTemplate(filename string) {
+	v.templateMu.Lock()
+	delete(v.templateCache, filename)
+	v.templateMu.Unlock()
 }
 
 // assignSeenAttrs assigns an ID to every v-once element of a template's private DOM
